@@ -178,6 +178,7 @@ Lemma build_S n x t :
       | None => None
       | Some i => if is_nil i then Some INil else joinc_loop n i (JE b)
       end
+  | EWhen p s => if interp_p p x then build n x s else Some INil
   end.
 Proof. reflexivity. Qed.
 
@@ -544,7 +545,7 @@ Qed.
 
 Theorem build_ok : forall t x, BuildOk x t.
 Proof.
-  induction t as [v | xs | | ys | p s IH | p s IH | p s IH | m s IH | l IHl r IHr | j s IH | b IHb s IHs]; intros x.
+  induction t as [v | xs | | ys | p s IH | p s IH | p s IH | m s IH | l IHl r IHr | j s IH | b IHb s IHs | p s IH]; intros x.
   - exists (IElem v). split; [apply Ev_const; intros n; apply build_S | apply pos_elem].
   - exists (from_slice xs). split; [apply Ev_const; intros n; apply build_S | apply repr_from_slice].
   - exists (IElem x). split; [apply Ev_const; intros n; apply build_S | apply pos_elem].
@@ -582,6 +583,12 @@ Proof.
       exists (S N). intros n Hn. destruct n as [|n]; [lia|]. rewrite apply_j_E. apply HN. lia.
     + apply IHs.
     + intros n. reflexivity.
+  - (* EWhen: nil when the guard fails, else the body *)
+    unfold BuildOk. cbn [den]. destruct (interp_p p x) eqn:Hp.
+    + destruct (IH x) as (i & (N & HN) & HR). exists i. split; [|exact HR].
+      exists (S N). intros n Hn. destruct n as [|n]; [lia|]. rewrite build_S, Hp. apply HN. lia.
+    + exists INil. split; [|reflexivity].
+      apply Ev_const. intros n. rewrite build_S, Hp. reflexivity.
 Qed.
 
 (* ------------------------------------------------------------ the documented loop *)
